@@ -24,7 +24,7 @@ def run(env, rep):
         "is read (computed from the guarding comparisons, insensitive to < vs <=); R3: continuation chunks inherit the first "
         "chunk's timestamp field, the header remembered per chunk stream is the header that was emitted, and the reader stores "
         "the timestamp field only from the 24-bit value it read; R4: every path of serialize to Ok(Packet) emits at least one "
-        "chunk; R5: a format-0 header carries the absolute timestamp and the other formats the difference to the previous header of the chunk stream, on both sides; R6: a stage of the reader that returns 'not enough bytes' has no observable effect (C15 R1), so the result does not depend on how the bytes are split.  R7: a changed chunk size is announced under the old size before it is used, and no empty chunk follows a complete payload (C07 R5-R6); R8: partial messages are kept per chunk stream between chunks (C16 R1-R2).  Not decided: the round trip over all histories, exact payload slicing.")
+        "chunk; R5: a format-0 header carries the absolute timestamp and the other formats the difference to the previous header of the chunk stream, on both sides; R6: a stage of the reader that returns 'not enough bytes' has no observable effect (C15 R1), so the result does not depend on how the bytes are split.  R7: a changed chunk size is announced under the old size before it is used, and no empty chunk follows a complete payload (C07 R5-R6); R8: partial messages are kept per chunk stream between chunks (C16 R1-R2); R9: the reader holds nothing back - get_next_message gives up only on a stage's report of a shortage and a stage waits only for its own bytes (C15 R5, C06 R7), so a zero-length message at the end of the input is delivered.  Not decided: the round trip over all histories, exact payload slicing.")
     rep.assumptions = ["byteorder's write/read_uN::<E> encode the named width and byte order"]
     m = chunk.ChunkModel(env, rep, "C01.anchors")
     if not m.ok:
@@ -165,3 +165,8 @@ def run(env, rep):
         C07.run(env, PrefixReport(rep, "C07.", "C01.R7.", only=("C07.R5", "C07.R6")))
     if wants(rep, "C01.R8"):
         C16.run(env, PrefixReport(rep, "C16.", "C01.R8.", only=("C16.R1", "C16.R2")))
+    if wants(rep, "C01.R9"):
+        # every accepted message comes back: the reader's driver loop and its stages hold nothing back (zero-length messages included)
+        from . import C15, C06
+        C15.run(env, PrefixReport(rep, "C15.R5", "C01.R9", only=("C15.R5",), keys=lambda k: str(k).startswith("deserializer") or "anchor" in str(k)))
+        C06.run(env, PrefixReport(rep, "C06.R7", "C01.R9", only=("C06.R7",)))
